@@ -8,6 +8,7 @@ cd $W && git checkout -q -- . && git apply $D/patch.diff || { echo "patch does n
 echo "== build with change" >> $LOG
 nice ninja -C _build -j${J:-8} >> $LOG.build 2>&1 || { echo "BUILD FAILED with change" | tee -a $LOG; git checkout -q -- .; exit 1; }
 echo "== ctest with change" >> $LOG
+if [ "${SKIP_CTEST:-0}" = 1 ]; then T=${T_PREV:-skipped}; else
 ctest --test-dir _build -j${J:-8} --timeout 900 > $LOG.ctest 2>&1; tail -5 $LOG.ctest >> $LOG
 if ! grep -q "100% tests passed" $LOG.ctest; then
   # tests that fail within a second under heavy machine load are re-run once, alone
@@ -15,10 +16,12 @@ if ! grep -q "100% tests passed" $LOG.ctest; then
   ctest --test-dir _build --rerun-failed --timeout 900 > $LOG.ctest2 2>&1; tail -5 $LOG.ctest2 >> $LOG
   grep -q "100% tests passed" $LOG.ctest2 && T=pass-after-rerun || T=FAIL
 else T=pass; fi
-mkdir -p $W/demo_$ID && sed "s#/tmp/mut_[A-Za-z0-9_]*#$W#g" $D/demo/demo.cpp > $W/demo_$ID/demo.cpp
-sed "s#/tmp/mut_[A-Za-z0-9_]*#$W#g; s#demo/demo.cpp#demo_$ID/demo.cpp#g; s#demo/demo\b#demo_$ID/demo#g; s#$W/demo\b#$W/demo_$ID#g" $D/demo/build.sh > $W/demo_$ID/build.sh
+fi
+mkdir -p $W/demo_$ID && sed "s#/tmp/mut[0-9]*_[A-Za-z0-9_]*#$W#g" $D/demo/demo.cpp > $W/demo_$ID/demo.cpp
+sed "s#/tmp/mut[0-9]*_[A-Za-z0-9_]*#$W#g; s#demo/demo.cpp#demo_$ID/demo.cpp#g; s#demo/demo\b#demo_$ID/demo#g; s#$W/demo\b#$W/demo_$ID#g" $D/demo/build.sh > $W/demo_$ID/build.sh
 (cd $W/demo_$ID && bash ./build.sh) >> $LOG 2>&1
 DEMO=$(find $W/demo_$ID -maxdepth 1 -type f -executable -name 'demo*' ! -name '*.sh' | head -1)
+[ -n "$DEMO" ] || { echo "DEMO NOT BUILT" | tee -a $LOG; git checkout -q -- .; exit 2; }
 $DEMO > $LOG.demo_with 2>&1; R1=$?
 cd $W && git checkout -q -- . 
 echo "== rebuild without change" >> $LOG
